@@ -24,6 +24,10 @@ type Op struct {
 	Format  string       `json:"format,omitempty"`
 	Writer  *WriterFault `json:"writer,omitempty"`
 	Snap    bool         `json:"snap,omitempty"` // attach a Documents() snapshot after this op
+	// Share makes the caller's tree a DAG: for each pair, the value at key
+	// path [1] becomes the very same Go object as the value at key path [0]
+	// (a program that builds documents in Go may reuse one sub-map twice)
+	Share [][2][]string `json:"share,omitempty"`
 }
 
 // TaskSpec is a sequence of ops on one fresh parser.
